@@ -180,6 +180,30 @@ def main(tier, seed):
     import random as _random
     for i in range(n // 3):
         progs.append(("twin/%d/%d" % (seed, i), twin_program(_random.Random("c25t/%s/%s" % (seed, i)))))
+    # recursion through a deterministic relation: ground clauses with a single body atom of the head's own predicate
+    from vlib.gen import A, P
+    for i in range(n // 3):
+        r = _random.Random("c25g/%s/%s" % (seed, i))
+        nodes = ["a", "b", "c", "d"][: r.randint(3, 4)]
+        prog = []
+        edges = set()
+        for _ in range(r.randint(2, 5)):
+            x, y = r.sample(nodes, 2)
+            edges.add((x, y))
+        for x, y in sorted(edges):
+            prog.append(("fact", A("edge", x, y)))
+        k = 0
+        for x in nodes:
+            if r.random() < 0.7:
+                k += 1
+                prog.append(("ad", [("p%d" % k, A("s", x))], []))
+        if k == 0:
+            prog.append(("ad", [("p1", A("s", nodes[-1]))], []))
+        prog.append(("rule", A("reach", "X"), [P(A("s", "X"))]))
+        prog.append(("rule", A("reach", "X"), [P(A("edge", "X", "Y")), P(A("reach", "Y"))]))
+        for x in r.sample(nodes, r.randint(1, len(nodes))):
+            prog.append(("query", A("reach", x)))
+        progs.append(("detgraph/%d/%d" % (seed, i), prog))
     run.bounds = {"skeletons": len(progs)}
     for st in pmap(work, progs, item_timeout=120 if tier == "quick" else 600):
         run.merge(st)
